@@ -45,6 +45,14 @@ func profile(name string) Profile {
 		p.UniqueP = 45
 	case "C20":
 		w["search"], w["collect"], w["del"], w["upd"] = 20, 25, 12, 20
+	case "golden":
+		// what the PINNED release can run without meeting its known defects: plain writes
+		for k := range w {
+			w[k] = 0
+		}
+		w["ins"], w["upd"], w["del"], w["many"], w["bulk"], w["get"], w["count"], w["commit"] = 30, 14, 8, 5, 3, 4, 2, 2
+		p.Sweep = 0
+		p.MaxOps = 24
 	case "C04", "C18":
 		w["reopen"], w["closereopen"], w["search"], w["collect"] = 10, 6, 14, 10
 		p.Sweep = 50
@@ -387,7 +395,9 @@ func (e *Exec) collectMode(sid int, lim int64) int {
 	if s == nil || s.det {
 		return 0
 	}
-	if lim >= 0 {
+	if lim >= 0 || s.limited {
+		// a limit (also the one left by an earlier Collect) picks an order-dependent subset
+		s.limited = true
 		return 2
 	}
 	return 1
@@ -435,7 +445,7 @@ func (e *Exec) GenOp(r *rand.Rand, p Profile) []string {
 	switch kind {
 	case "ins":
 		f := genRec(r, e.cfg)
-		if pct(r, 3) {
+		if pct(r, 3) && p.Name != "golden" {
 			f = genBad(r, f)
 		}
 		return sweep("ins " + f.String())
@@ -502,7 +512,7 @@ func (e *Exec) GenOp(r *rand.Rand, p Profile) []string {
 			f = nf
 		}
 		f.U = u
-		if pct(r, 3) {
+		if pct(r, 3) && p.Name != "golden" {
 			f = genBad(r, f)
 		}
 		return sweep("ins " + f.String())
@@ -620,6 +630,12 @@ func (e *Exec) GenOp(r *rand.Rand, p Profile) []string {
 			return sweep("many " + strings.Join(ms, " "))
 		}
 		cs := []int{0, 1, 2, 3, len(ms), len(ms) + 1}[r.Intn(6)]
+		if e.cfg.Async {
+			// InsertOrUpdateBulk is several locked calls: a flusher STARTED by its first chunk
+			// runs between chunks at the scheduler's whim. Start it before (the model evaluates
+			// a newly started flusher once, after the whole call).
+			return append([]string{"count"}, sweep(fmt.Sprintf("bulk %d %s", cs, strings.Join(ms, " ")))...)
+		}
 		return sweep(fmt.Sprintf("bulk %d %s", cs, strings.Join(ms, " ")))
 	case "delall":
 		return sweep("delall")
